@@ -143,6 +143,7 @@ type Report struct {
 	Bounded     []map[string]interface{}
 	Assumptions []string
 	Undecided   []string
+	replays     int
 }
 
 type FuncTarget struct {
